@@ -311,6 +311,12 @@ func cmdCheck(args []string) int {
 		}
 		outLines = append(outLines, line)
 	}
+	for _, mc := range p.missing {
+		if contractMentionsProp(mc, *prop) {
+			outLines = append(outLines, fmt.Sprintf("VIOLATION property=%s replay=none obligation=%s/shape:function-exists the function under contract no longer exists (%s:%d) no-failing-input-found", *prop, mc.Name, relPath(mc.File, *repo), mc.Line))
+			violations++
+		}
+	}
 	// vacuity guard
 	if len(works) == 0 && engineErrs == 0 {
 		outLines = append(outLines, fmt.Sprintf("VIOLATION property=%s replay=none zero obligations generated (vacuous check) no-failing-input-found", *prop))
@@ -344,6 +350,7 @@ func cmdCheck(args []string) int {
 	trusted = append(trusted, "go/ssa (x/tools v0.50.0, NaiveForm) translation of Go source", "SMT solvers z3 5.1.0 / z3 4.8.12 / cvc5 1.0.3", "govc WP generator (/verif/govc)")
 	trusted = append(trusted, "A-INT64: int/int64/uint64 arithmetic treated as mathematical integers (narrower types wrap exactly)")
 	trusted = append(trusted, "A-APPEND: append() result modelled as a fresh backing array")
+	trusted = append(trusted, "A-SLICE0: slice parameters are views starting at offset 0 of their backing object (parameters overlapping in one array at different offsets are not considered)")
 	var exts []string
 	for e := range externs {
 		exts = append(exts, e)
